@@ -301,6 +301,9 @@ func (x *X) RmAll(p string) error {
 // OpenFd opens p read-only and keeps the descriptor under a label.
 func (x *X) OpenFd(label, p string) error {
 	vsched.Step("open " + p)
+	if _, dup := x.fds[label]; dup {
+		return x.fs("open", p, syscall.EBUSY) // one descriptor per label: keeps the state space finite
+	}
 	fd, err := unix.Open(p, unix.O_RDONLY|unix.O_CLOEXEC, 0)
 	if err == nil {
 		x.fds[label] = fd
@@ -332,7 +335,9 @@ func (r Rec) bytes() []byte {
 		nl = (len(r.Name) + 1 + 15) &^ 15 // NUL-terminated, padded to 16 like the kernel does
 	}
 	b := make([]byte, 16+nl)
-	le := func(off int, v uint32) { b[off], b[off+1], b[off+2], b[off+3] = byte(v), byte(v>>8), byte(v>>16), byte(v>>24) }
+	le := func(off int, v uint32) {
+		b[off], b[off+1], b[off+2], b[off+3] = byte(v), byte(v>>8), byte(v>>16), byte(v>>24)
+	}
 	le(0, uint32(r.Wd))
 	le(4, r.Mask)
 	le(8, r.Cookie)
